@@ -447,7 +447,8 @@ def _run(ctx):
     ctx.cov["rule"] = ("proof: finite theorems over the regenerated tables (every operator class, every return path of every Node function) + induction over programs in the abstract model; "
                        "cases = every Node function x path variant (scalar first / scalar second / both / neither operand, empty / non-empty list) called through both APIs with small valid arguments, "
                        "plus the exhaustive sweep of split, batch::split, softmax_cross_entropy (dense, sparse) over 33 shapes (11 dim lists up to depth 3 x batch 1..3) x 8 axes incl. 7, 8, 9, 2^32-1 x n in {0..4, 2^31, 2^32-1} (batch::split also 6; any exception other than primitiv::Error counts as a failure) / id lists incl. empty and out of range / all shape pairs; "
-                       "compared: accepted vs Error, Node::shape() before evaluation, values; non-trivial = calls both APIs accept")
+                       "compared: accepted vs Error, Node::shape() before evaluation, values; non-trivial = calls both APIs accept; "
+                       "the REAL INSTANCE of the model (Tables/RealSem.v at R := Q) is run on the same default call of every row it has a program for and compared with what the code did: accepted / rejected (Tensor API, node creation), result shapes, static Node shapes, and the values for the core family (coverage key real_instance_vs_code)")
     ctx.cov["input_distribution"] = {"row_calls": len(lines) - 1, "sweep": 1, "build_variants": variants}
     ctx.add_samples([lines[4], lines[9], lines[-2], "sweep"] + [o[:160] for o in outs[9:10]])
 
